@@ -178,7 +178,8 @@ Proof.
   unfold lookup_nonexpired, ref_lne. rewrite image_eq. cbn [c_cmdmap c_sessions].
   rewrite find_sess_image. destruct (rfind id (r_sessions r)) as [x|]; simpl; [|reflexivity].
   destruct (is_expired (fst x) now); simpl; [|reflexivity].
-  rewrite image_eq. cbn [r_sessions r_routes]. rewrite del_sess_image. reflexivity.
+  rewrite image_eq. cbn [r_sessions r_routes]. rewrite del_sess_image. f_equal.
+  rewrite filter_map. reflexivity.
 Qed.
 
 Lemma sim_store r e cmds :
@@ -319,7 +320,8 @@ Proof.
   - rewrite sim_sweep. split; [reflexivity|]. unfold ref_sweep, wf_routes. cbn [r_routes].
     apply wf_routes_filter. exact Hw.
   - rewrite sim_lne. split; [reflexivity|]. unfold ref_lne.
-    destruct (rfind id (r_sessions r)) as [x|]; [|exact Hw]. destruct (is_expired (fst x) now); exact Hw.
+    destruct (rfind id (r_sessions r)) as [x|]; [|exact Hw]. destruct (is_expired (fst x) now); [|exact Hw].
+    unfold wf_routes. cbn [r_routes]. apply wf_routes_filter. exact Hw.
 Qed.
 
 (* ------------------------------------------------------------------------ *)
@@ -348,7 +350,7 @@ Lemma sound_lne r now id : sound r -> sound (ref_lne r now id).
 Proof.
   unfold ref_lne. destruct (rfind id (r_sessions r)) as [x|]; [|auto].
   destruct (is_expired (fst x) now); [|auto].
-  apply sound_shrink; cbn [r_sessions r_routes]; [apply incl_filter|apply incl_refl].
+  apply sound_shrink; cbn [r_sessions r_routes]; apply incl_filter.
 Qed.
 
 Lemma rfind_In id l x : rfind id l = Some x -> In x l /\ e_id (fst x) = id.
@@ -734,7 +736,8 @@ Proof.
     destruct (lookup_by_command c now t (b :: a') cm) as [e|]; [|exact Hfull].
     destruct (has_usable_key e); [apply Hres; exact H|exact Hfull].
   - unfold lookup_nonexpired. destruct (find_sess (b :: s) (c_sessions c)) as [e|]; [|exact H].
-    destruct (is_expired e now); [exact H|]. apply Hres. exact H.
+    destruct (is_expired e now); [|apply Hres; exact H].
+    unfold cache_ok. cbn [fst c_cmdmap]. apply NoDup_keys_filter. exact H.
 Qed.
 Lemma cache_ok_step st e : cache_ok (fst st) -> cache_ok (fst (step st e)).
 Proof.
@@ -744,7 +747,8 @@ Proof.
   - apply cache_ok_invalidate. exact H.
   - unfold invalidate_expired, cache_ok. cbn [fst c_cmdmap]. apply NoDup_keys_filter. exact H.
   - unfold lookup_nonexpired. destruct (find_sess id (c_sessions c)) as [e|]; [|exact H].
-    destruct (is_expired e now); exact H.
+    destruct (is_expired e now); [|exact H].
+    unfold cache_ok. cbn [fst c_cmdmap]. apply NoDup_keys_filter. exact H.
 Qed.
 Lemma cache_ok_run h : cache_ok (fst (run h)).
 Proof.
@@ -833,4 +837,112 @@ Proof.
   - change (run_from st (e :: h)) with (run_from (step st e) h). apply IH.
     + apply absent_step; [exact H|]. intros t a cmd p fo [E|[]] Ef. apply (Hn t a cmd p fo); [left; exact E|exact Ef].
     + intros t a cmd p fo Hin Ef. apply (Hn t a cmd p fo); [right; exact Hin|exact Ef].
+Qed.
+
+(* ------------------------------------------------------------------------ *)
+(* 7. no orphan mappings: in every reachable state each command mapping leads *)
+(*    to a stored session (LookupNonExpired removes the mappings with the     *)
+(*    entry, so nothing can be left pointing at a vanished id)                *)
+(* ------------------------------------------------------------------------ *)
+Definition no_orphans (c : cache) : Prop :=
+  forall kv, In kv (c_cmdmap c) -> find_sess (snd kv) (c_sessions c) <> None.
+
+Lemma find_del_other id id' l : id <> id' -> find_sess id (del_sess id' l) = find_sess id l.
+Proof.
+  intro Hne. unfold find_sess, del_sess. induction l as [|e l IH]; [reflexivity|]. cbn [filter find].
+  destruct (id_is id' e) eqn:E'; cbn [negb].
+  - destruct (id_is id e) eqn:E; [|exact IH]. exfalso. unfold id_is in *.
+    apply bytes_eqb_eq in E, E'. apply Hne. congruence.
+  - cbn [find]. destruct (id_is id e); [reflexivity|exact IH].
+Qed.
+Lemma find_store_same c e : find_sess (e_id e) (c_sessions (store c e)) = Some e.
+Proof. unfold store, find_sess. cbn [c_sessions find]. unfold id_is. rewrite bytes_eqb_refl. reflexivity. Qed.
+Lemma find_store_other c e id : id <> e_id e ->
+  find_sess id (c_sessions (store c e)) = find_sess id (c_sessions c).
+Proof.
+  intro Hne. unfold store. cbn [c_sessions]. unfold find_sess at 1. cbn [find]. unfold id_is at 1.
+  rewrite bytes_eqb_neq by (intro K; apply Hne; symmetry; exact K). apply find_del_other. exact Hne.
+Qed.
+Lemma bytes_dec (x y : bytes) : x = y \/ x <> y.
+Proof. destruct (bytes_eqb x y) eqn:E; [left; apply bytes_eqb_eq; exact E|right; intro K; subst; rewrite bytes_eqb_refl in E; discriminate]. Qed.
+
+Lemma no_orphans_store c e : no_orphans c -> no_orphans (store c e).
+Proof.
+  intros H kv Hin. change (c_cmdmap (store c e)) with (c_cmdmap c) in Hin.
+  destruct (bytes_dec (snd kv) (e_id e)) as [->|Hne].
+  - rewrite find_store_same. discriminate.
+  - rewrite find_store_other by exact Hne. apply H. exact Hin.
+Qed.
+Lemma no_orphans_map_command c t a cm sid :
+  find_sess sid (c_sessions c) <> None -> no_orphans c -> no_orphans (map_command c t a cm sid).
+Proof.
+  intros Hs H kv Hin. unfold map_command, map_set, map_del in Hin. cbn [c_cmdmap c_sessions] in *.
+  destruct Hin as [<-|Hin]; [exact Hs|]. apply H. apply filter_In in Hin. tauto.
+Qed.
+Lemma no_orphans_fold tag addr sid l c :
+  find_sess sid (c_sessions c) <> None -> no_orphans c ->
+  no_orphans (fold_left (fun c' cmd => let cmd' := trim_space cmd in
+                           match cmd' with [] => c' | _ => map_command c' tag addr cmd' sid end) l c).
+Proof.
+  revert c. induction l as [|x l IH]; intros c Hs H; simpl; [exact H|].
+  destruct (trim_space x) as [|b r]; [apply IH; assumption|].
+  apply IH; [exact Hs|apply no_orphans_map_command; assumption].
+Qed.
+Lemma no_orphans_remove c id :
+  no_orphans c ->
+  no_orphans {| c_sessions := del_sess id (c_sessions c);
+                c_cmdmap := filter (fun kv => negb (bytes_eqb (snd kv) id)) (c_cmdmap c) |}.
+Proof.
+  intros H kv Hin. cbn [c_cmdmap c_sessions] in *. apply filter_In in Hin as [Hin Hne].
+  rewrite find_del_other; [apply H; exact Hin|].
+  intro K. cbv beta in Hne. destruct kv as [k v]. cbn [snd] in *. subst v.
+  rewrite bytes_eqb_refl in Hne. discriminate.
+Qed.
+Lemma no_orphans_invalidate c id : no_orphans c -> no_orphans (fst (invalidate c id)).
+Proof.
+  unfold invalidate. destruct (find_sess id (c_sessions c)); [|auto]. cbn [fst]. apply no_orphans_remove.
+Qed.
+Lemma no_orphans_handshake c now sid t a cmd p :
+  no_orphans c -> no_orphans (fst (client_handshake c now sid t a cmd p)).
+Proof.
+  intro H.
+  assert (Hfull : no_orphans (fst (full_auth c now t a p))).
+  { unfold full_auth. destruct (on_full p) as [fo|]; [|exact H].
+    destruct (f_sid fo) eqn:Es; [exact H|]. destruct a; [exact H|]. cbn [fst].
+    unfold store_client_session. apply no_orphans_fold.
+    - change (f_sid fo) with (e_id (client_entry now t (b0 :: a) fo)). rewrite find_store_same. discriminate.
+    - apply no_orphans_store. exact H. }
+  assert (Hres : forall c1 e, no_orphans c1 -> no_orphans (fst (resume_session c1 now e p))).
+  { intros c1 e H1. unfold resume_session.
+    destruct (on_resume p (e_id e)); cbn [fst]; auto using no_orphans_invalidate, no_orphans_store. }
+  unfold client_handshake. destruct sid as [|b s].
+  - destruct a as [|b a']; [exact Hfull|]. destruct cmd as [cm|]; [|exact Hfull].
+    destruct (lookup_by_command c now t (b :: a') cm) as [e|]; [|exact Hfull].
+    destruct (has_usable_key e); [apply Hres; exact H|exact Hfull].
+  - unfold lookup_nonexpired. destruct (find_sess (b :: s) (c_sessions c)) as [e|]; [|exact H].
+    destruct (is_expired e now); [cbn [fst]; apply no_orphans_remove; exact H|apply Hres; exact H].
+Qed.
+Lemma no_orphans_step st e : no_orphans (fst st) -> no_orphans (fst (step st e)).
+Proof.
+  destruct st as [c now]. cbn [fst]. intro H. destruct e; cbn [step fst].
+  - apply no_orphans_handshake. exact H.
+  - exact H.
+  - apply no_orphans_invalidate. exact H.
+  - intros kv Hin. exact (proj2 (sweep_clean c now) kv Hin).
+  - unfold lookup_nonexpired. destruct (find_sess id (c_sessions c)) as [e|]; [|exact H].
+    destruct (is_expired e now); [cbn [fst]; apply no_orphans_remove; exact H|exact H].
+Qed.
+Lemma no_orphans_run h : no_orphans (fst (run h)).
+Proof.
+  unfold run, run_from. assert (H0 : no_orphans (fst (empty_cache, 0))) by (intros kv []).
+  revert H0. generalize (empty_cache, 0). induction h as [|e h IH]; intros st H; simpl; [exact H|].
+  apply IH. apply no_orphans_step. exact H.
+Qed.
+
+(* hence the freshness side condition of the refinement only ever speaks about stored sessions *)
+Lemma used_stored c id : no_orphans c -> In id (used c) -> find_sess id (c_sessions c) <> None.
+Proof.
+  intros H Hin. unfold used in Hin. apply in_app_or in Hin as [Hin|Hin].
+  - apply in_map_iff in Hin as (e & <- & He). intro F. exact (find_sess_none _ _ e F He eq_refl).
+  - apply in_map_iff in Hin as (kv & <- & Hkv). apply H. exact Hkv.
 Qed.
